@@ -482,6 +482,8 @@ EnvNewCyc(s, o, ft) ==
       s2 == SPush(s1, [Frame("op", 0, "pre") EXCEPT !.x = [op |-> "newcyc", o |-> o, adj |-> trig]])
   IN IF trig THEN StartCollect(s2) ELSE s2
 
+EnvWNew(s) ==       \* Weak::new(): dead for ever
+  LET s1 == Emit(s, CallEv(s, [op |-> "wnew"])) IN Emit(s1, RetEv(s1, "wnew", [res |-> "none", wsc |-> 0, wwc |-> 0, peq |-> TRUE]))
 EnvSaveW(s, o) ==   \* inside the new_cyclic closure: keep a clone of the provided Weak
   LET s1 == Emit(s, CallEv(s, [op |-> "savew", o |-> o]))
       s2 == [s1 EXCEPT !.meta[o].wc = @ + 1, !.wroots[o] = @ + 1]
@@ -673,6 +675,7 @@ ANewCyc == /\ "newcyc" \in OPS /\ WEAK /\ Budget(st) /\ Full(st)
            /\ \E o \in Objs : /\ FreeId(st, o) /\ (\A o2 \in Objs : FreeId(st, o2) => o <= o2)
                                /\ \/ Do(EnvNewCyc(Begin(st), o, <<>>))
                                   \/ \E ft \in FaultPlans(st) : ShouldTrigger(st) /\ st.pc # <<>> /\ Do(EnvNewCyc(Begin(st), o, ft))
+AWNew == /\ "wnew" \in OPS /\ WEAK /\ Budget(st) /\ Full(st) /\ Do(EnvWNew(Begin(st)))
 ASaveW == /\ "newcyc" \in OPS /\ Budget(st) /\ CbTop(st) = "closure" /\ st.wroots[SelfOf(st)] < MaxWRoots /\ Do(EnvSaveW(Begin(st), SelfOf(st)))
 AWProbe == /\ "newcyc" \in OPS /\ Budget(st) /\ CbTop(st) = "closure" /\ Do(EnvWProbe(Begin(st), SelfOf(st)))
 ASetCfg == /\ "setcfg" \in OPS /\ AUTOF /\ Budget(st) /\ Full(st)
@@ -759,7 +762,7 @@ AReturnClosure == /\ st.stack # <<>> /\ CbTop(st) = "closure"
                   /\ \E sw \in (IF NW > 0 THEN BOOLEAN ELSE {FALSE}) : Do(EnvReturnClosure([st EXCEPT !.ev = <<>>], sw))
 APanic == /\ st.stack # <<>> /\ st.nfaults < MaxFaults /\ ~Unwinding(st) /\ Do(EnvPanic([st EXCEPT !.ev = <<>>]))
 
-Next == ARegister \/ AClean \/ ADropCl \/ ASat \/ ANewCyc \/ ASaveW \/ AWProbe \/ ASetCfg \/ AReturnClosure \/ APut \/ ATake \/ ADowngrade \/ AUpgrade \/ AUpgradeF \/ ACloneW \/ ADropW \/ ASetW \/ AClearW \/ ANew \/ AClone \/ ACloneF \/ ADrop \/ ASet \/ AClear \/ AMark \/ ACollect \/ AUnwrap \/ ADropVal \/ AFAgain \/ AReturn \/ APanic
+Next == AWNew \/ ARegister \/ AClean \/ ADropCl \/ ASat \/ ANewCyc \/ ASaveW \/ AWProbe \/ ASetCfg \/ AReturnClosure \/ APut \/ ATake \/ ADowngrade \/ AUpgrade \/ AUpgradeF \/ ACloneW \/ ADropW \/ ASetW \/ AClearW \/ ANew \/ AClone \/ ACloneF \/ ADrop \/ ASet \/ AClear \/ AMark \/ ACollect \/ AUnwrap \/ ADropVal \/ AFAgain \/ AReturn \/ APanic
 
 Init == /\ st = Init0
         /\ mon = Mon(MonInit, ResetEv)
